@@ -1156,7 +1156,7 @@ Inductive SObs (s s' : st) : Prop :=
     alive (cons s') = true -> SObs s s'
 | so_exit r : log s' = log s ++ [EExit r] -> exits s' = exits s ++ [r] -> handled s' = handled s ->
     stop_req s' = stop_req s -> kill_req s' = kill_req s -> quiet (cons s') = quiet (cons s) ->
-    si s' = si s -> SObs s s'
+    si s' = si s -> 6 <= status s' -> SObs s s'
 | so_interv e : is_interv e = true -> log s' = log s ++ [e] -> exits s' = exits s ->
     handled s' = handled s -> si s' = si s -> SObs s s'.
 
@@ -1190,10 +1190,10 @@ Lemma sobs_ext s s' s2 :
   SObs s s' -> log s2 = log s' -> exits s2 = exits s' -> handled s2 = handled s' ->
   stop_req s2 = stop_req s' -> kill_req s2 = kill_req s' -> quiet (cons s2) = quiet (cons s') ->
   alive (cons s2) = alive (cons s') ->
-  si s2 = si s' -> ds s2 = ds s' ->
+  si s2 = si s' -> ds s2 = ds s' -> status s2 = status s' ->
   (forall i r, result s' i = Some r -> result s2 i = Some r) -> SObs s s2.
 Proof.
-  intros H L E T S K C Al I Dd R.
+  intros H L E T S K C Al I Dd St R.
   destruct H; unfold cframe in *.
   - apply so_silent; try congruence. rewrite C. auto.
   - eapply so_begin; eauto; try congruence. intros x y Hx. rewrite I in Hx. auto.
@@ -1283,7 +1283,7 @@ Proof.
     apply silent_of_cframe; simpl; auto. unfold cframe; simpl; rewrite ?Ec; repeat split; auto.
   - destruct (cons s) eqn:Ec; try (apply silent_of_cframe; auto; apply cframe_refl).
     destruct (rx_open s); [apply silent_of_cframe; auto; apply cframe_refl|].
-    apply (so_exit _ _ r); simpl; auto. rewrite Ec. auto.
+    apply (so_exit _ _ r); simpl; auto; [rewrite Ec; auto|lia].
 Qed.
 
 (* ---------- soundness of the executable oracle check_C07 on model logs ---------- *)
@@ -1325,7 +1325,8 @@ Record OInv7 (s : st) : Prop := {
   o_ok : forall i, mem i (d_ok (O7 s)) = true -> result s i = Some ROk;
   o_hd : forall i, In i (handled s) -> mem i (d_handled (O7 s)) = true;
   o_iv : d_interv (O7 s) = false ->
-         stop_req s = false /\ kill_req s = false /\ quiet (cons s) = true
+         stop_req s = false /\ kill_req s = false /\ quiet (cons s) = true;
+  o_st : exits s <> [] -> 6 <= status s
 }.
 
 Lemma oinv7_init : OInv7 init.
@@ -1336,7 +1337,7 @@ Qed.
 
 Theorem oinv7_step s l : Inv s -> OInv7 s -> OInv7 (step s l).
 Proof.
-  intros I [B Dr La Wr Ex Ok Hd Iv].
+  intros I [B Dr La Wr Ex Ok Hd Iv Sx].
   pose proof (step_inv s l I) as I'.
   pose proof (mono_step s l) as [Ms Mc _ Msi].
   pose proof (sobs_step s l (n_len _ (inv_n _ I))) as SO.
@@ -1344,7 +1345,7 @@ Proof.
   assert (LATE : forall i, 4 <= status s /\ late_ok s i -> 4 <= status s' /\ late_ok s' i).
   { intros i [A1 A2]. split; [lia|apply late_step; auto]. }
   destruct SO as [L E H S K Si Q | i w inf L Hn Hi Hw Hsi E H S K Q | i r L Hr Hr0 (E & H & S & K & Q & Si)
-                 | ok j L Hj (E & H & S & K & Q & Si) | i L H E S K Q S0 K0 Si Al | r L E H S K Q Si | e He L E H Si].
+                 | ok j L Hj (E & H & S & K & Q & Si) | i L H E S K Q S0 K0 Si Al | r L E H S K Q Si S6 | e He L E H Si].
   - (* silent *)
     constructor; rewrite ?(O7_same _ _ L).
     + auto.
@@ -1355,6 +1356,7 @@ Proof.
     + intros x X. apply result_step, Ok, X.
     + rewrite H. auto.
     + intros X. destruct (Iv X) as (A1 & A2 & A3). rewrite S, K. auto.
+    + intros X. rewrite E in X. specialize (Sx X). lia.
   - (* begin *)
     constructor; rewrite ?(O7_snoc _ _ _ L); simpl.
     + auto.
@@ -1369,6 +1371,7 @@ Proof.
     + intros x X. apply result_step, Ok, X.
     + rewrite H. auto.
     + intros X. destruct (Iv X) as (A1 & A2 & A3). rewrite S, K, Q. auto.
+    + intros X. rewrite E in X. specialize (Sx X). lia.
   - (* end *)
     constructor; rewrite ?(O7_snoc _ _ _ L); simpl.
     + rewrite B. simpl. apply negb_false_iff.
@@ -1385,6 +1388,7 @@ Proof.
       apply mem_cons in X as [->|X]; auto. apply result_step, Ok, X.
     + rewrite H. auto.
     + intros X. destruct (Iv X) as (A1 & A2 & A3). rewrite S, K, Q. auto.
+    + intros X. rewrite E in X. specialize (Sx X). lia.
   - (* drain end *)
     constructor; rewrite ?(O7_snoc _ _ _ L); simpl.
     + auto.
@@ -1397,6 +1401,7 @@ Proof.
     + intros x X. apply result_step, Ok, X.
     + rewrite H. auto.
     + intros X. destruct (Iv X) as (A1 & A2 & A3). rewrite S, K, Q. auto.
+    + intros X. rewrite E in X. specialize (Sx X). lia.
   - (* handle *)
     constructor; rewrite ?(O7_snoc _ _ _ L); simpl.
     + auto.
@@ -1407,6 +1412,7 @@ Proof.
     + intros x X. apply result_step, Ok, X.
     + intros x X. rewrite H in X. apply mem_cons. apply in_app_or in X as [X|[X|[]]]; auto.
     + intros _. rewrite S, K. auto.
+    + intros X. rewrite E in X. specialize (Sx X). lia.
   - (* exit *)
     constructor; rewrite ?(O7_snoc _ _ _ L); simpl.
     + rewrite B, Ex. simpl.
@@ -1419,6 +1425,7 @@ Proof.
     + intros x X. apply result_step, Ok, X.
     + rewrite H. auto.
     + intros X. destruct (Iv X) as (A1 & A2 & A3). rewrite S, K, Q. auto.
+    + intros _. exact S6.
   - (* intervention *)
     assert (Z : o7_step (O7 s) e = mkO7 (d_drained (O7 s)) (d_late (O7 s)) (d_wrong (O7 s)) (d_ok (O7 s))
                   (d_handled (O7 s)) (d_exits (O7 s)) true (d_bad (O7 s))) by (destruct e; try discriminate; auto).
@@ -1431,6 +1438,7 @@ Proof.
     + intros x X. apply result_step, Ok, X.
     + rewrite H. auto.
     + discriminate.
+    + intros X. rewrite E in X. specialize (Sx X). lia.
 Qed.
 
 Theorem reachable_oinv7 s : reachable s -> Inv s /\ OInv7 s.
@@ -1443,7 +1451,7 @@ Qed.
 
 Theorem check_C07_sound s : reachable s -> check_C07 (complete s) (log s) = true.
 Proof.
-  intros R. destruct (reachable_oinv7 s R) as [I [B Dr La Wr Ex Ok Hd Iv]].
+  intros R. destruct (reachable_oinv7 s R) as [I [B Dr La Wr Ex Ok Hd Iv Sx]].
   unfold check_C07. fold (O7 s). rewrite B. simpl.
   apply andb_true_iff. split.
   - destruct (only_drained (d_exits (O7 s))) eqn:Eo; auto.
@@ -1462,6 +1470,13 @@ Proof.
       pose proof (not_idle_closed s I AD Hc A) as X. destruct (q s); [destruct X|discriminate].
     + simpl in Q. destruct r; try discriminate.
       destruct (q_dead _ (inv_q _ I) _ Eco) as (-> & _). auto.
+Qed.
+
+Theorem check_status_sound s : reachable s -> check_status (log s) (status s) = true.
+Proof.
+  intros R. destruct (reachable_oinv7 s R) as [I [B Dr La Wr Ex Ok Hd Iv Sx]].
+  unfold check_status. fold (O7 s). rewrite Ex. destruct (exits s) eqn:E; auto.
+  apply Nat.leb_le. apply Sx. discriminate.
 Qed.
 
 (* ---------- soundness of the executable oracle check_C02 on model logs ---------- *)
@@ -1496,9 +1511,15 @@ Proof.
     + rewrite K. unfold sstep. rewrite Hn, Hn. auto.
 Qed.
 
-Definition O2 (s : st) : o2 := fold_left o2_step (log s) o2_init.
+Lemma if_same_false (b : bool) : (if b then false else false) = false.
+Proof. destruct b; auto. Qed.
 
-Lemma O2_snoc s s' e : log s' = log s ++ [e] -> O2 s' = o2_step (O2 s) e.
+Section OracleC02.
+Variable rt : bool.
+
+Definition O2 (s : st) : o2 := fold_left (o2_step rt) (log s) o2_init.
+
+Lemma O2_snoc s s' e : log s' = log s ++ [e] -> O2 s' = o2_step rt (O2 s) e.
 Proof. unfold O2. intros ->. rewrite fold_left_app. reflexivity. Qed.
 Lemma O2_same s s' : log s' = log s -> O2 s' = O2 s.
 Proof. unfold O2. intros ->. reflexivity. Qed.
@@ -1594,7 +1615,7 @@ Proof.
   { intros j x X. eapply precedes_mono; eauto. }
   assert (G_w : forall i, wrong_ok s' i) by (intros i; apply wrong_step; auto).
   destruct SO as [L E H S K Si Q | i w inf L Hn Hi Hw Hsi E H S K Q | i r L Hr Hr0 (E & H & S & K & Q & Si)
-                 | ok j L Hj (E & H & S & K & Q & Si) | i L H E S K Q S0 K0 Si Al | r L E H S K Q Si | e He L E H Si].
+                 | ok j L Hj (E & H & S & K & Q & Si) | i L H E S K Q S0 K0 Si Al | r L E H S K Q Si _ | e He L E H Si].
   - (* silent *)
     constructor; rewrite ?(O2_same _ _ L); auto.
     + intros i. rewrite Si. auto.
@@ -1711,7 +1732,7 @@ Proof.
       pose proof (before_nodup_neq _ _ _ NDh P2) as Hne. apply before_in_l in P2.
       rewrite H in P2. apply in_app_or in P2 as [P2|[P2|[]]]; [|congruence].
       apply Hd. auto. }
-    constructor; rewrite ?(O2_snoc _ _ _ L); simpl; rewrite ?N1, ?N2, ?N3, ?N4, ?N5, ?N6; simpl; auto.
+    constructor; rewrite ?(O2_snoc _ _ _ L); simpl; rewrite ?N1, ?N2, ?N3, ?N4, ?N5, ?N6; simpl; rewrite ?if_same_false; simpl; auto.
     + intros x. rewrite Si. auto.
     + intros x. rewrite mem_cons, H, in_app_iff. simpl. rewrite Hd. intuition.
     + rewrite N4 in Ex. intros X. discriminate.
@@ -1721,7 +1742,7 @@ Proof.
     + intros i. rewrite H. auto.
     + intros _. rewrite E. destruct (exits s); discriminate.
   - (* intervention *)
-    assert (Z : o2_step (O2 s) e = O2 s) by (destruct e; try discriminate; auto).
+    assert (Z : o2_step rt (O2 s) e = O2 s) by (destruct e; try discriminate; auto).
     constructor; rewrite ?(O2_snoc _ _ _ L), ?Z; auto.
     + intros i. rewrite Si. auto.
     + intros i. rewrite H. auto.
@@ -1740,10 +1761,10 @@ Qed.
 Definition alive_idle (s : st) : bool :=
   alive (cons s) && match q s with [] => true | _ => false end.
 
-Theorem check_C02_sound s : reachable s -> check_C02 (alive_idle s) (log s) = true.
+Theorem check_C02_gen_sound s : reachable s -> check_C02_gen rt (alive_idle s) (log s) = true.
 Proof.
   intros R. destruct (reachable_oinv2 s R) as [I [B Bg En Ok Rj Hd Ex Wr Sn W]].
-  unfold check_C02. fold (O2 s). rewrite B. simpl.
+  unfold check_C02_gen. fold (O2 s). rewrite B. simpl.
   destruct (alive_idle s) eqn:A; auto.
   unfold alive_idle in A. apply andb_true_iff in A as [A1 A2].
   destruct (q s) eqn:Eq; [|discriminate].
@@ -1751,6 +1772,13 @@ Proof.
   unfold subset. apply forallb_forall. intros x X. apply mem_in in X.
   apply Hd. rewrite E. apply ok_accepted; auto.
 Qed.
+
+End OracleC02.
+
+Theorem check_C02_sound s : reachable s -> check_C02 (alive_idle s) (log s) = true.
+Proof. exact (check_C02_gen_sound true s). Qed.
+Theorem check_C02_lite_sound s : reachable s -> check_C02_lite (alive_idle s) (log s) = true.
+Proof. exact (check_C02_gen_sound false s). Qed.
 
 (* ---------- the deterministic drivers only compose steps ---------- *)
 
